@@ -139,6 +139,13 @@ CASES = [
     ("m-c12-backward-startswith", "C12", "fire", "xdis/bytecode.py", "\"JUMP_BACKWARD\" in opname", "opname.startswith(\"JUMP_BACKWARD\")", "C04-R1"),
     ("m-c20-linedelta-boundary", "C20", "fire", "xdis/cross_dis.py", "            if line_delta >= 0x80:", "            if line_delta > 0x80:", "C05-R2"),
     ("m-c13-long-noref", "C13", "fire", "xdis/unmarshal.py", "        if n < 0:\n            d = long(d * -1)", "        if n < 0:\n            return long(-d)", "C01-R3"),
+    ("m-c19-divmod-256", "C19", "fire", "xdis/codetype/code30.py", "            while offset_diff >= 256:\n                co_lnotab += bytearray([255, 0])\n                offset_diff -= 255\n",
+     "            if offset_diff >= 256:\n                extra, offset_diff = divmod(offset_diff, 256)\n                co_lnotab += bytearray([255, 0]) * extra\n", "conservation:address"),
+    ("s-c19-divmod-255", "C19", "silent", "xdis/codetype/code30.py", "            while offset_diff >= 256:\n                co_lnotab += bytearray([255, 0])\n                offset_diff -= 255\n",
+     "            if offset_diff >= 256:\n                extra, offset_diff = divmod(offset_diff, 255)\n                co_lnotab += bytearray([255, 0]) * extra\n", ""),
+    ("m-c19-no-reset", "C19", "fire", "xdis/codetype/code15.py", "                co_lnotab += chr(255)\n                offset_diff = 0\n                line_diff -= 255", "                co_lnotab += chr(255)\n                line_diff -= 255", "conservation:address"),
+    ("m-c19-chunk-254", "C19", "fire", "xdis/codetype/code30.py", "                co_lnotab += bytearray([offset_diff, 255])\n                offset_diff = 0\n                line_diff -= 255", "                co_lnotab += bytearray([offset_diff, 255])\n                offset_diff = 0\n                line_diff -= 256", "conservation:line"),
+    ("s-c19-chunk-200", "C19", "silent", "xdis/codetype/code15.py", "            while offset_diff >= 256:\n                co_lnotab += chr(255)\n                co_lnotab += chr(0)\n                offset_diff -= 255", "            while offset_diff >= 256:\n                co_lnotab += chr(200)\n                co_lnotab += chr(0)\n                offset_diff -= 200", ""),
 ]
 
 
@@ -164,7 +171,7 @@ def run_case(case):
         t0 = time.time()
         r = subprocess.run([sys.executable, "-m", "xv.main", pid], cwd=HERE, env=env, capture_output=True, text=True)
         out = r.stdout
-        keys = [ln.strip().split()[0] for ln in out.splitlines() if ln.startswith("    %s/" % pid)]
+        keys = [ln.strip().split("  at ")[0] for ln in out.splitlines() if ln.startswith("    %s/" % pid)]
         res = {"id": cid, "property": pid, "kind": kind, "exit": r.returncode, "violations": keys[:6], "wall_s": round(time.time() - t0, 2)}
         if kind == "fire":
             hit = r.returncode == 1 and (not frag or any(frag in k for k in keys))
